@@ -25,7 +25,7 @@ for pid, p in props.items():
     head = t.split('Additional guidance for this round:')[0]
     head = head.replace(f'/tmp/seed{tmpl_round}/', f'{root}/')
     lst = '\n'.join('- ' + s for s in tried.get(pid, []))
-    tail = ("Additional guidance for this round: nine earlier rounds of volunteers and a mechanical mutation campaign (every comparison operator, every `if err != nil`, every deleted statement or guard, swapped arguments, swapped results, sibling calls, constants +1) have been through this code already. The changes already tried FOR THIS PROPERTY are listed below — do NOT repeat any of them or a close variant (same function and same idea):\n"
+    tail = ("Additional guidance for this round: ten earlier rounds of volunteers and a mechanical mutation campaign (every comparison operator, every `if err != nil`, every deleted statement or guard, swapped arguments, swapped results, sibling calls, constants +1) have been through this code already. The changes already tried FOR THIS PROPERTY are listed below — do NOT repeat any of them or a close variant (same function and same idea):\n"
             + lst + "\n" + EXTRA)
     open(f'{out}/PROMPT.txt', 'w').write(head + tail)
     wt = f'{root}/wt-{pid}'
